@@ -631,13 +631,15 @@ def instr_shard(res, ctx, tier, n):
                 snap = ctx.plan.snapshot()
                 va = (uva + RAM_OFF[size]) & M32
                 first = True
-                for insn, mode in itertools.product(INSNS, ("usr", "svc")):
+                # word-aligned, and one byte further: the unaligned access is made byte by byte (SCTLR.U = 1, A = 0; all
+                # attribute choices of this shard are Normal memory), each byte translated with the access's privilege
+                for insn, mode, mis in itertools.product(INSNS, ("usr", "svc"), (0, 1)):
                     if insn[2] and mode == "usr":
                         continue
                     if not first:
                         ctx.plan.restore(snap)
                     first = False
-                    instr_case(ctx, res, p, va, mode, insn, CODE_VA, "ttbr%d/%s" % (which, kind))
+                    instr_case(ctx, res, p, va + mis, mode, insn, CODE_VA, "ttbr%d/%s" % (which, kind))
     res.sample({"shard": "instr", "N": n, "program": "LDR/STR/LDRT/STRT r2,[r1] at VA %#x (section -> PA %#x)" % (CODE_VA, CODE)})
 
 
